@@ -683,6 +683,7 @@ def _token_tables_and_segments(ctx: Ctx):
     _ali_moments_table(ctx)
     _ali_token_round_trip_table(ctx)
     _plain_workers_tables(ctx)
+    _serial_worker_count_is_admitted(ctx)
     f = pkg.func(f"{MOD}::_print_torch_ali_data_dir_length_moments")
     from sa.defuse import ReachingDefs
     rd = ReachingDefs(f.node)
@@ -773,6 +774,45 @@ def _ali_token_round_trip_table(ctx: Ctx):
     col.count("ali_token_round_trip_rows", n)
     col.ob("G12", "S10", f"{rel}::ali<->token::round-trip-table", bad is None,
            (f"{bad[0]} on {bad[1]}: got {str(bad[2])[:160]}; expected {str(bad[3])[:160]}") if bad else "", rel, a2t.line, sample=dict(rows=n))
+
+
+def _serial_worker_count_is_admitted(ctx: Ctx):
+    """S3: 'zero, one or many worker processes' starts at zero - the dispatcher's serial branch is the test `num_workers == 0`, so the
+    validator the shared `--num-workers` option is parsed with must admit 0. The option table entry's `type` is resolved in argcheck
+    (`as_x = _cast_factory(cast, check)`); the admitted range is read off the check's name from a closed table (no check / non-negative:
+    0 admitted; positive / natural: not) - an unknown validator is undecided, never passed."""
+    col, pkg = ctx.col, ctx.pkg
+    mi = pkg.module(MOD)
+    rel = mi.relname
+    table = next((st.value for st in mi.tree.body if isinstance(st, ast.Assign) and len(st.targets) == 1 and u(st.targets[0]) == "_COMMON_ARGS"
+                  and isinstance(st.value, ast.Dict)), None)
+    entry = None
+    if table is not None:
+        for k_, v_ in zip(table.keys, table.values):
+            if isinstance(k_, ast.Constant) and k_.value == "--num-workers" and isinstance(v_, ast.Dict):
+                entry = v_
+    if entry is None:
+        col.undecided(f"{rel}: the shared --num-workers option entry was not found")
+        return
+    typ = next((v_ for k_, v_ in zip(entry.keys, entry.values) if isinstance(k_, ast.Constant) and k_.value == "type"), None)
+    tname = u(typ).split(".")[-1] if typ is not None else "str"
+    admits = None
+    if tname in ("int", "as_int"):
+        admits = True
+    else:
+        am = pkg.module("argcheck")
+        for st in am.tree.body:
+            if isinstance(st, ast.Assign) and len(st.targets) == 1 and u(st.targets[0]) == tname and isinstance(st.value, ast.Call) \
+                    and call_name(st.value) == "_cast_factory" and st.value.args:
+                chk = u(st.value.args[1]) if len(st.value.args) > 1 else None
+                admits = {None: True, "is_nonneg": True, "is_nonnegi": True, "is_pos": False, "is_posi": False, "is_nat": False,
+                          "is_neg": False, "is_negi": False}.get(chk, None)
+    if admits is None:
+        col.undecided(f"{rel}: the validator `{tname}` of --num-workers is not in the table of known ranges")
+        return
+    col.ob("G8", "S3", f"{rel}::_COMMON_ARGS[--num-workers]::serial-worker-count-is-admitted", admits,
+           f"--num-workers is parsed with `{tname}`, which refuses 0: the serial branch of the dispatcher (num_workers == 0, 'zero worker processes') "
+           f"cannot be asked for - every command returns a usage error for it", rel, typ.lineno if typ is not None else entry.lineno, sample=tname)
 
 
 def _plain_workers_tables(ctx: Ctx):
